@@ -25,7 +25,7 @@ REQUIRED_MONITORS = ["equals_channel_sum", "zero_magnetisation_is_nonmagnetic"]
 REQUIRED_BUCKETS = {"quick": ["up_frac:0", "up_frac:0.5", "up_frac:1", "up_frac:outside", "up_frac:random", "axis:up_theta90",
                               "axis:tilted", "magnetic_slds:1", "magnetic_slds:all", "vector_sld", "dispersity", "oriented",
                               "lane:asan", "nonmagnetic_sld_with_nonzero_angles", "mesh>100",
-                              "angles:outside-nominal-range", "entry:call_Fq", "entry:sasview", "cutoff>0:small-channel-weight", "magnetisation-along-polarisation-axis"]}
+                              "angles:outside-nominal-range", "entry:call_Fq", "entry:sasview", "cutoff>0:small-channel-weight", "magnetisation-along-polarisation-axis", "reparameterised-model"]}
 REQUIRED_BUCKETS["thorough"] = REQUIRED_BUCKETS["quick"]
 
 
@@ -33,8 +33,25 @@ def mag_models():
     return [m for m in sas.compiled_models() if sas.info(m).parameters.nmagnetic > 0 and not sas.raw(sas.info(m)).has_iqxy]
 
 
+REPARAMS = {
+    # models given other parameters (core.reparameterize): base SLDs defined through new SLD-typed parameters
+    "rtm06_rep_sphere": ("sphere", [["contrast_sld", "1e-6/Ang^2", 2.5, [-np.inf, np.inf], "sld", "sld above the solvent"]],
+                         "sld = sld_solvent + contrast_sld"),
+    "rtm06_rep_core_shell_sphere": ("core_shell_sphere", [["mix", "", 0.4, [0, 1], "", "core fraction in the shell"]],
+                                    "sld_shell = mix*sld_core + (1.0 - mix)*sld_solvent"),
+}
+
+
+def _register_reparams():
+    from sasmodels import core as sascore
+    for nm, (base, new, text) in REPARAMS.items():
+        if nm not in sas._cache["info"]:
+            sas._cache["info"][nm] = sascore.reparameterize(sas.info(base), new, text, name=nm)
+
+
 def worker_init(tier, seed):
     sas.install_poison()
+    _register_reparams()
 
 
 def gen_cases(tier, seed):
@@ -42,6 +59,9 @@ def gen_cases(tier, seed):
     cases = []
     mm = mag_models()
     for m in mm:
+        for k in range(n):
+            cases.append({"id": "%s/%03d" % (m, k), "model": m, "k": k, "seed": seed, "group": m, "lane": "plain"})
+    for m in REPARAMS:
         for k in range(n):
             cases.append({"id": "%s/%03d" % (m, k), "model": m, "k": k, "seed": seed, "group": m, "lane": "plain"})
     for m in (["sphere", "core_shell_cylinder", "core_multi_shell", "parallelepiped"] if tier == "quick" else mm):
@@ -56,7 +76,10 @@ def unit(theta, phi):
 
 def run_case(case, rec):
     from sasmodels import direct_model
+    _register_reparams()
     name, k = case["model"], case["k"]
+    if name in REPARAMS:
+        rec.bucket("reparameterised-model")
     i = sas.info(name)
     rng = core.rng_for(case["seed"], PROP, name, k)
     pars = sas.base_pars(i, case["seed"]*53 + k)
@@ -212,7 +235,7 @@ def run_case(case, rec):
     if k % 3 == 0 and not any(kk.endswith("_pd_n") for kk in pars):
         # the SasView-style model object on the same 2-D request
         from sasmodels import sasview_model
-        m_ = sasview_model._make_standard_model(name)()
+        m_ = (sasview_model.make_model_from_info(i) if name in REPARAMS else sasview_model._make_standard_model(name))()
         for kk, vv in mpars.items():
             m_.setParam(kk, vv)
         m_.cutoff = cutoff
